@@ -163,6 +163,31 @@ func (p *C15) Gen(seed uint64, i int, tier string) *scen.Scenario {
 				sc.Setup = append(sc.Setup, scen.Op{Op: "handler_handle", L: h, Lvl: lv, T: ts(), Msg: "h" + t, Tok: t, Args: g.attrs(r.Intn(3)), Probe: true, Kind: "force"})
 			}
 		}
+		// the underlying logger's gating changes after the handlers have answered once: an excursion of its
+		// level (through Debug, which switches the process-wide debug mode on, and back), or the debug mode
+		// itself; afterwards every handler must answer as the logger gates now
+		for rounds := r.Intn(3); rounds > 0; rounds-- {
+			for k := r.Range(1, 2); k > 0; k-- {
+				if r.Chance(1, 4) {
+					sc.Setup = append(sc.Setup, scen.Op{Op: "set_debug_mode", B: []bool{r.Bool()}})
+				} else {
+					sc.Setup = append(sc.Setup, scen.Op{Op: "set", L: 1, Kind: "level", Lvl: scen.Pick(r, []int{model.Debug, model.Debug, L, model.Warn, model.Info, model.Error, model.Trace})})
+				}
+			}
+			sc.Setup = append(sc.Setup, scen.Op{Op: "get_debug_mode"}, scen.Op{Op: "snap"})
+			for _, h := range handlers {
+				if len(handlers) > 3 && r.Bool() {
+					continue
+				}
+				for _, lv := range c15StdLevels {
+					sc.Setup = append(sc.Setup, scen.Op{Op: "handler_enabled", L: h, Lvl: lv})
+					if r.Chance(1, 2) {
+						t := nt()
+						sc.Setup = append(sc.Setup, scen.Op{Op: "slog_log", L: h, Lvl: lv, Msg: "s" + t, Tok: t, Args: g.attrs(r.Intn(3)), Probe: true})
+					}
+				}
+			}
+		}
 	} else {
 		sc.Setup = append(sc.Setup, scen.Op{Op: "set", L: 1, Kind: scen.Pick(r, []string{"json", "color"}), B: []bool{r.Bool()}},
 			scen.Op{Op: "get_debug_mode"}, scen.Op{Op: "snap"})
